@@ -309,7 +309,7 @@ def _const_return(repo: Repo, ci: ClassInfo, method: str):
     return None
 
 
-@rule("C16.5", ["C16", "C11"], "register allocation: reads and clobbers resolved through get_register, scratch is a prefix, result order is total", 12)
+@rule("C16.5", ["C16", "C11", "C07"], "register allocation: reads and clobbers resolved through get_register, scratch is a prefix, result order is total", 12)
 def c16_5(ctx: Ctx):
     repo = ctx.repo
     fi = repo.func("abi.ABI._allocate_patch_registers")
